@@ -85,12 +85,57 @@ func intervalOver(il *IPRequestLimiter, now time.Time) bool {
 //@   ensures  counted: il.Counters[ip] == nr && il.Counters != nil
 //@   ensures  quota: ok <==> (nr <= il.MaxNrRequests || whitelisted(il, ip))
 //@   ensures  maxreported: (whitelisted(il, ip) ==> maxNr == -1) && (!whitelisted(il, ip) ==> maxNr == il.MaxNrRequests)
-//@   assigns  il.Counters, il.ResetTime
+//@   assigns  il.Counters, il.ResetTime, il.Counters[*]
 //@   allocates
-//@   noframe
 //@   loop 1 invariant 0 <= rangeidx && rangeidx <= len(il.cidrBlocks)
 //@   loop 1 invariant forall k in [0, rangeidx) :: !ipIn(il.cidrBlocks[k], parsedIP)
 //@   loop 1 invariant ok == (nr <= il.MaxNrRequests) && maxNr == il.MaxNrRequests
+
+// lemmaQuota: k consecutive requests of one address that is not white-listed, all
+// within the running interval, are numbered c0+1 .. c0+k in order, each reported
+// with the configured maximum, and exactly those numbered <= MaxNrRequests pass.
+// (Sequential composition of Inc calls: the mutex makes each call atomic.)
+//@ lemma lemmaQuota
+//@   requires il != nil && il.Counters != nil && k >= 0 && len(times) == k && !whitelisted(il, ip)
+//@   requires forall j in [0, k) :: !intervalOver(il, times[j])
+//@   ensures  il.Counters[ip] == old(il.Counters[ip]) + k
+//@   ensures  passed == max(0, min(k, il.MaxNrRequests - old(il.Counters[ip])))
+//@   ensures  il.ResetTime == old(il.ResetTime)
+//@   assigns  il.Counters, il.ResetTime, il.Counters[*]
+//@   allocates
+//@   noframe
+//@   loop 1 invariant 0 <= j && j <= k && il.Counters != nil && il.Counters[ip] == c0 + j && c0 == old(il.Counters[ip])
+//@   loop 1 invariant il.ResetTime == old(il.ResetTime) && il.Interval == old(il.Interval) && il.MaxNrRequests == old(il.MaxNrRequests) && il.cidrBlocks == old(il.cidrBlocks)
+//@   loop 1 invariant forall m in [0, len(il.cidrBlocks)) :: il.cidrBlocks[m] == old(il.cidrBlocks[m])
+//@   loop 1 invariant passed == max(0, min(j, il.MaxNrRequests - c0))
+//@   loop 1 decreases k - j
+func lemmaQuota(il *IPRequestLimiter, ip string, k int, times []time.Time) (passed int) {
+	c0 := il.Counters[ip]
+	for j := 0; j < k; j++ {
+		nr, maxNr, ok := il.Inc(times[j], ip)
+		assert(nr == c0+j+1)
+		assert(maxNr == il.MaxNrRequests)
+		assert(ok == (nr <= il.MaxNrRequests))
+		if ok {
+			passed++
+		}
+	}
+	return passed
+}
+
+// lemmaQuotaOtherAddress: a request of one address does not change the count of another
+// (within the interval), and a white-listed address is never limited.
+//@ lemma lemmaQuotaOther
+//@   requires il != nil && il.Counters != nil && ip != other
+//@   ensures  !old(intervalOver(il, now)) ==> il.Counters[other] == old(il.Counters[other])
+//@   ensures  whitelisted(il, ip) ==> ok
+//@   assigns  il.Counters, il.ResetTime, il.Counters[*]
+//@   allocates
+//@   noframe
+func lemmaQuotaOther(il *IPRequestLimiter, now time.Time, ip, other string) (ok bool) {
+	_, _, ok = il.Inc(now, ip)
+	return ok
+}
 
 //@ func (*IPRequestLimiter).Count
 //@   requires il != nil
